@@ -67,6 +67,16 @@ def _script(kind, variant):
             steps.append((b'NEGOTIATE_UNIX_FD', b'AGREE_UNIX_FD\r\n'))
         steps.append((b'BEGIN', 'HELLO_REPLY'))
         return steps
+    if variant == 'later-mechanism':
+        # a bus that lets this peer in only anonymously and, on a UNIX socket, declines to pass descriptors: the connection
+        # is as good as any
+        steps = [(b'AUTH EXTERNAL', b'REJECTED DBUS_COOKIE_SHA1 ANONYMOUS\r\n'),
+                 (b'AUTH DBUS_COOKIE_SHA1', b'REJECTED ANONYMOUS\r\n')]
+        steps.append((b'AUTH ANONYMOUS', b'OK ' + GUID + b'\r\n'))
+        if kind == 'unix':
+            steps.append((b'NEGOTIATE_UNIX_FD', b'ERROR\r\n'))
+        steps.append((b'BEGIN', 'HELLO_REPLY'))
+        return steps
     if variant == 'rejected':
         return [(b'AUTH EXTERNAL', b'REJECTED\r\n'), (b'AUTH DBUS_COOKIE_SHA1', b'REJECTED\r\n'),
                 (b'AUTH ANONYMOUS', b'REJECTED\r\n')]
@@ -199,7 +209,8 @@ def run_connect(case):
                 sent += len(data)
                 if t.disconnected:
                     break
-            established_expected = case['variant'] == 'ideal' and case['crash'] is None
+            established_expected = case['variant'] in ('ideal', 'later-mechanism') and \
+                case['crash'] is None
             if established_expected and not complete:
                 out.append(Disc('connect.script-not-followed', 'client wrote %r' % written))
             if case['variant'] == 'hello-error' and complete and not results:
@@ -286,7 +297,7 @@ def enum_connect(tier):
             first = reach.index(True)
             kind = 'unix' if entries[first].startswith('unix') else 'tcp'
             total = _total(kind)
-            for variant in ('rejected', 'rejected-list', 'hello-error', 'garbage'):
+            for variant in ('rejected', 'rejected-list', 'hello-error', 'garbage', 'later-mechanism'):
                 yield {'entries': entries, 'reachable': reach, 'variant': variant, 'crash': None}
             # crash points: only once per (kind, position of first reachable) -- the walk before it is independent
             key = (kind, tuple(entries[:first + 1]))
@@ -307,7 +318,7 @@ def enum_connect(tier):
 def classify_connect(case):
     ph = _phase(case)
     labels = [ph, 'n=%d' % len(case['entries'])]
-    nt = ph in ('inside-ok', 'after-ok', 'before-hello-reply-complete', 'rejected', 'rejected-list', 'hello-error', 'garbage') or \
+    nt = ph in ('inside-ok', 'after-ok', 'before-hello-reply-complete', 'rejected', 'rejected-list', 'hello-error', 'garbage', 'later-mechanism') or \
         (len(case['entries']) > 1)
     return nt, labels
 
